@@ -742,6 +742,32 @@ func typeBindings() string {
 	if v, err := vm.Execute(fresh, &vm.Options{}, "y"); err != nil || v != nil {
 		return fmt.Sprintf("a fresh environment whose host bound y to nil reads y as %#v (error %v) after a script of another environment wrote through the address of its own host-bound nil", v, err)
 	}
+	// a file that was replaced is loaded anew, whatever its size and time stamp say
+	if dir := filepath.Dir(libFile14); dir != "." {
+		f := filepath.Join(dir, "replaced.ank")
+		load := func() string {
+			e := core.Import(env.NewEnv())
+			e.Define("f", f)
+			v, err := vm.Execute(e, &vm.Options{}, "load(f)")
+			return fmt.Sprintf("%v|%v", v, err)
+		}
+		os.WriteFile(f, []byte("rq = 1\nrq + 10\n"), 0o644)
+		st, _ := os.Stat(f)
+		first := load()
+		os.WriteFile(f, []byte("rq = 2\nrq + 20\n"), 0o644) // same length
+		if st != nil {
+			os.Chtimes(f, st.ModTime(), st.ModTime()) // what cp -p, rsync -t or tar do
+		}
+		second := load()
+		os.WriteFile(f, []byte("rq = 1\nrq + 10\n"), 0o644)
+		if st != nil {
+			os.Chtimes(f, st.ModTime(), st.ModTime())
+		}
+		third := load()
+		if second == first || third != first {
+			return fmt.Sprintf("a script file was replaced (same length, time stamp preserved) between loads in fresh environments: the loads returned %s, then %s, then (first content again) %s", first, second, third)
+		}
+	}
 	// ... nor is the nil a run is left with after a caught error
 	ce := env.NewEnv()
 	ce.Define("five", int64(5))
